@@ -86,6 +86,9 @@ def _arr(v, interp=None):
         return A.from_nested(v)
     if isinstance(v, A.SeqVal):
         return A.from_nested(v)
+    if isinstance(v, A.Masked):
+        from .relops import masked_to_arr
+        return masked_to_arr(v)
     raise EngineError(f"array-like expected, got {type(v).__name__}")
 
 
